@@ -215,8 +215,13 @@ def run(ctx):
         "lq": {"constructor": '".".NewA', "arguments": ["lq"], "type": '*".".Obj', "getter": "GetLq"},
         "lv": {"constructor": "NewVal", "arguments": ["lv"], "type": "Obj", "getter": "GetLv", "must_getter": True},
         "lx": {"value": "&Obj{}", "type": "*Obj", "getter": "GetLx"},
-        "ly": {"value": "Obj{}", "type": '".".Obj', "getter": "GetLy"}}}
-    lwant = {"GetLp": "*fx.Obj", "GetLq": "*fx.Obj", "GetLv": "fx.Obj", "GetLx": "*fx.Obj", "GetLy": "fx.Obj"}
+        "ly": {"value": "Obj{}", "type": '".".Obj', "getter": "GetLy"},
+        # no type: T is interface{} whatever the value spells (a struct literal, a pointer to one, a variable)
+        "la": {"value": "&Obj{}", "getter": "GetLa"}, "lb": {"value": "Obj{}", "getter": "GetLb"},
+        "lc": {"value": "&fx.Obj{}", "getter": "GetLc"}, "ld": {"value": "fx.Obj{}", "getter": "GetLd"},
+        "le": {"value": "&fx.GlobalVal", "getter": "GetLe"}, "lf": {"value": "fx.Global", "getter": "GetLf"}}}
+    lwant = {"GetLp": "*fx.Obj", "GetLq": "*fx.Obj", "GetLv": "fx.Obj", "GetLx": "*fx.Obj", "GetLy": "fx.Obj",
+             "GetLa": "interface {}", "GetLb": "interface {}", "GetLc": "interface {}", "GetLd": "interface {}", "GetLe": "interface {}", "GetLf": "interface {}"}
     lops = [["methods"], ["newctx", "c1"]] + [["call", g] for g in lwant] + [["call", g + "InContext", "c1"] for g in lwant] + [["call", "MustGetLp"], ["call", "MustGetLv"]]
     lout, lerr = behave.run_batch(ctx, [(lcfg, lops)], tag="c13l", local=True, split=False)
     if lerr or not lout or not lout[0]["accepted"] or lout[0]["impl"] is None:
@@ -228,7 +233,7 @@ def run(ctx):
             for nm, sig in ((g, ([], [t, "error"])), (g + "InContext", (["context.Context"], [t, "error"]))) + (((("Must" + g), ([], [t])), ("Must" + g + "InContext", (["context.Context"], [t]))) if g in ("GetLp", "GetLv") else ()):
                 dist["local_type_methods"] += 1
                 if nm not in got or (list(got[nm][0]), list(got[nm][1])) != (sig[0], sig[1]):
-                    violations.append({"sig": "method-signature", "what": "%s (type of the generated package itself, declared %r) has signature %r, expected %r" % (nm, lcfg["services"]["l" + g[-1].lower()]["type"], got.get(nm), sig), "files": lout[0]["files"]})
+                    violations.append({"sig": "method-signature", "what": "%s (type of the generated package itself, declared %r) has signature %r, expected %r" % (nm, lcfg["services"]["l" + g[-1].lower()].get("type"), got.get(nm), sig), "files": lout[0]["files"]})
         for o, r in zip(lops[2:], lout[0]["impl"][2:]):
             if "ok" not in r:
                 violations.append({"sig": "getter-fails", "what": "%r on a service typed with the generated package's own type: %r" % (o, r), "files": lout[0]["files"]})
